@@ -690,4 +690,60 @@ theorem keyword_table_documented :
 
 example : documentedKeywords.length = 22 := by decide
 
+/-! ## T2, clause (3) spelled out: a Rust type registered twice — any names, any scopes (round 4) -/
+
+/-- a list whose image under `f` has no duplicates: `f` is injective on it -/
+theorem nodup_map_inj {α β : Type} (f : α → β) : ∀ (l : List α), (l.map f).Nodup →
+    ∀ a ∈ l, ∀ b ∈ l, f a = f b → a = b
+  | [], _, a, ha, _, _, _ => by cases ha
+  | x :: xs, h, a, ha, b, hb, hab => by
+    simp only [List.map_cons, List.nodup_cons, List.mem_map, not_exists, not_and] at h
+    rcases List.mem_cons.1 ha with rfl | ha' <;> rcases List.mem_cons.1 hb with rfl | hb'
+    · rfl
+    · exact absurd hab.symm (h.1 b hb')
+    · exact absurd hab (h.1 a ha')
+    · exact nodup_map_inj f xs h.2 a ha' b hb' hab
+
+/-- **A Rust type the runtime already has.** For every library, lexer verdict
+    and well-formed runtime: a `type` item — at ANY path of the library, under ANY
+    name — whose Rust type is registered in the runtime (under whatever name, in
+    whatever scope: `nm` is arbitrary) makes the registration an error. -/
+theorem type_registered_before_rejected (lex : Name → Lex) (st : St) (hw : WF st) (items : Items)
+    {p : List Name} {n : Name} {id : TyId} {nm : RName}
+    (hi : ItemAt items p (.type n id)) (hreg : st.types id = some nm) :
+    ∃ e, register Cfg.fixed lex st items = .err e := by
+  rw [add_fails_iff lex st hw]
+  intro ha
+  have hm : (⟨[] ++ p, n, id⟩ : TOp) ∈ ops2 items :=
+    mem_flat_of_itemAt leafType hi [] _ (by simp [leafType])
+  have := ha.types_once.2 _ hm
+  simp [hreg] at this
+
+/-- **A Rust type registered twice by one library.** Two `type` items of one
+    Rust type at different places — sibling modules, a module and a module nested
+    in it, the root and a module — under the same identifier or different ones
+    make the registration an error.  (Two items with the same path AND name are
+    rejected by the name clause of `Accepts`.) -/
+theorem type_twice_in_library_rejected (lex : Name → Lex) (st : St) (hw : WF st) (items : Items)
+    {p q : List Name} {n n' : Name} {id : TyId}
+    (h1 : ItemAt items p (.type n id)) (h2 : ItemAt items q (.type n' id)) (hne : (p, n) ≠ (q, n')) :
+    ∃ e, register Cfg.fixed lex st items = .err e := by
+  rw [add_fails_iff lex st hw]
+  intro ha
+  have m1 : (⟨[] ++ p, n, id⟩ : TOp) ∈ ops2 items := mem_flat_of_itemAt leafType h1 [] _ (by simp [leafType])
+  have m2 : (⟨[] ++ q, n', id⟩ : TOp) ∈ ops2 items := mem_flat_of_itemAt leafType h2 [] _ (by simp [leafType])
+  have := nodup_map_inj (·.id) _ ha.types_once.1 _ m1 _ m2 rfl
+  simp only [List.nil_append, TOp.mk.injEq, and_true] at this
+  exact hne (by rw [this.1, this.2])
+
+example : ∃ e, register Cfg.fixed lexV st0
+    (il [.module 0 (il [.type 5 7]), .module 1 (il [.type 5 7])]) = .err e :=
+  type_twice_in_library_rejected lexV st0 (init_wf _ _) _
+    (p := [0]) (q := [1]) (.inside 0 _ (.here _ _)) (.there _ (.inside 1 _ (.here _ _))) (by decide)
+
+/-- the Rust type of the pre-declared primitive (100, registered as `50` at the root) again, as `5` inside a module -/
+example : ∃ e, register Cfg.fixed lexV st0 (il [.module 0 (il [.type 5 100])]) = .err e :=
+  type_registered_before_rejected lexV st0 (init_wf _ _) _ (p := [0]) (nm := ⟨[], 50⟩)
+    (.inside 0 _ (.here _ _)) (by decide)
+
 end RotoV.C18
